@@ -15,7 +15,17 @@ PROP = {
              "126,127, var with lengths 0,1,4,7,8,252,255,256,257,260,511 x workchains -2^31..2^31-1 incl. -129,-128,127,128 (the 256-bit "
              "/ 8-bit-workchain look-alike is generated, compared with the model, and excluded from the oracle as the property says), each "
              "with no anycast / depth 1..30 / extreme uint32 anycast; ton.AccountID with int32 workchains; cells built from random DAGs "
-             "(1..40 cells, 0..4 refs, shared subtrees) as boc.Cell and as tlb.Any; Maybe[T] absent/present over 11 inner types. Every Marshal / Unmarshal / UnmarshalJSON call runs under a watchdog (5 s): "
+             "(1..40 cells, 0..4 refs, shared subtrees) and from trees of exactly 1, 2, 254, 255, 256, 257, 258 (thorough: also 300, 511..513) "
+             "pairwise distinct cells -- the sizes where the BOC header changes width -- as boc.Cell and as tlb.Any, plus 65535/65536/65537 "
+             "distinct cells on the implementation side only (thorough); for every cell value the implementation-side oracle "
+             "json.Unmarshal(json.Marshal(cell)) succeeds with the same representation hash is evaluated on the cell as built, and the "
+             "model side checks on the case's bytes the C01 hypothesis of the cell theorem (they parse back to exactly one root) instead "
+             "of assuming it; hand-built hex BOC documents from the header grammar (independent serialiser refSerialize of dag.go): "
+             "0/1/2/3/255/256/257 cells x root lists {none, [0], [0,0], [n] out of range, [0,n], [0,n-1], [n-1], three roots} x 11 header "
+             "variants (generic/lean/lean+crc magic, index, crc32, cache bits, wider size / offset fields, stored hashes) and the named "
+             "zero-root documents b5ee9c72010100000000 and b5ee9c720101010000020000, each through json.Unmarshal and the direct method of "
+             "boc.Cell, tlb.Any and Maybe[tlb.Any] (compared with the model) and as the value of a boc.Cell / tlb.Any / Maybe[Any] / *boc.Cell "
+             "field of a struct (oracle: never a panic, same ok/err class as the direct target); Maybe[T] absent/present over 11 inner types. Every Marshal / Unmarshal / UnmarshalJSON call runs under a watchdog (5 s): "
              "a call that does not return is the outcome 'timeout and the oracle failure json-hang-<family> with the value (after 3 hangs "
              "the run stops emitting). Per "
              "value: json.Marshal text vs the model's printer (byte exact), json.Valid, json.Unmarshal and a direct UnmarshalJSON call of "
@@ -41,7 +51,10 @@ PROP = {
                     "JSON number or a quoted string of characters that need no escape, is accepted by the (ported) encoding/json scanner, "
                     "is its own value item and is never the literal null, hence json.Unmarshal(json.Marshal(v)) = v; documents the scanner "
                     "rejects are errors for every type; and no parser returns Panic on ANY byte string (the Go slice expressions str[2:] and "
-                    "parts[2][8:len-1] are explicit panic sites of the model, proved unreachable under their guards). The ambiguities are "
+                    "parts[2][8:len-1] and the index cells[0] of Cell.UnmarshalJSON are explicit panic sites of the model, proved "
+                    "unreachable under their guards; C20_cell_root_count_is_error: a well-formed bag of cells with any number of roots other "
+                    "than one, zero included, is an error; the design that rejects only more than one root is refuted by the document "
+                    "b5ee9c72010100000000 in Proofs/C20History.v). The ambiguities are "
                     "theorems too: addr_extern of length 0 prints as \"\" and parses as addr_none (_refuted, finding addr-extern-empty), and "
                     "a 256-bit variable address with an 8-bit workchain parses as a standard one (the property's excluded case, guard of the "
                     "theorem). coq/Properties/C20_gen.v re-checks on data translated from today's tlb/integers.go and tlb/models.go that each "
@@ -64,7 +77,7 @@ META = {
              "number or an escape-free string accepted by the encoding/json scanner and parses back to the same value, both through the "
              "method and through json.Unmarshal; syntactically invalid documents are errors; no parser panics on any input. The shapes "
              "of all 176 method pairs of tlb/integers.go, Grams and SignedCoins are re-extracted from today's source and checked against the model. The extracted "
-             "model reproduces json.Marshal / json.Unmarshal / UnmarshalJSON of the real code exactly on ~20k (quick) / ~386k (thorough) "
+             "model reproduces json.Marshal / json.Unmarshal / UnmarshalJSON of the real code exactly on ~23k (quick) / ~389k (thorough) "
              "structured, mutated and hand-written documents."),
     'design_ref': 'DESIGN.md §6 C20, §7 F8 F17',
     'note': ("Repair: F8 (SignedCoins.UnmarshalJSON used ParseUint, negatives failed). Known finding kept: F17 addr-extern-empty. "
